@@ -70,6 +70,14 @@ claims = {
          "all 4 hashWithStruct sites pass (fieldToStruct[o], o) with o an origin field, or a field enumerated from the same struct value; recordFieldToStruct skips instantiated structs and descends through Origin().Underlying(). "
          "Decides these clauses, not Identical(t,t') => equal salt for every type shape.",
          "closed-set call check on a type-switch region + operand provenance on go/ssa", "4 C15"),
+ "C10": ("Decides the writer cut: garble's strip table is obtained by interpreting the AST of stripRuntime for every (file, function) of the pinned toolchain's runtime package (type-checked from GOROOT source, ~2800 functions, SSA); on the call graph with "
+         "emptied bodies removed, constant-false blocks pruned and print builtins redirected, no function entered from outside Go source other than the print primitives can reach write(2, ...), and no primitive is emptied; required strips exist and are validated; "
+         "print/println are redirected to an empty variadic function; the linker patch reads the variable mainErr sets under -tiny; positions are blank under -tiny. Assumes assembly and cgo C code do not write to fd 2. Decides this clause, not exit status or recover values.",
+         "AST interpretation of the strip table + reachability on go/ssa of GOROOT's runtime", "4 C10"),
+ "C11": ("Decides exhaustiveness clauses: every concrete ssa.Instruction of the resolved x/tools (41) is converted, rejected by a failing default, or skipped for a reviewed reason; terminator, type and constant switches reject unknown kinds; "
+         "every exported field of each handled instruction (60) is read or listed as meaningless; the converter reads FreeVars, AnonFuncs, Blocks, Signature and Recover of the function; directive values are bounded and unknown hardening names panic; "
+         "trash guards draw from operators for which constant.Compare is false. Decides these clauses, not semantic preservation of flattening/splitting/junk/trash/hardening.",
+         "type-switch case extraction, operand/field coverage and reachability on go/ssa", "4 C11"),
 }
 
 checks = []
